@@ -142,7 +142,7 @@ def run(ctx, model_ok):
         idx.append(i)
     # the command line: `kevents` / `logs` with --tid, --process, -cf, -sf print the API's listing for those settings
     from . import cli_common
-    cli_common.run(ctx, ['kevents', 'logs'], 30 if ctx.quick() else 500)
+    cli_common.run(ctx, ['kevents', 'logs'], 100 if ctx.quick() else 800)
     ctx.samples = [{'cfg': gens[i][0]['cfg'], 'events(tid,eventid,uid)': gens[i][1][:6], 'impl': res[i]} for i in (0, 1)]
     if model_ok:
         bad, errors = vlib.run_model_cases('C12', HEADER, 'fcase', 'fcheck', cases, per_file=100)
